@@ -57,6 +57,10 @@ def showExc : PyExc → String
   | .osError => "OSError"
   | .unboundLocalError => "UnboundLocalError"
 
+def parseExc (s : String) : Option PyExc :=
+  [PyExc.socksProtocolError, .socksFailure, .unicodeEncodeError, .assertionError, .structError,
+   .attributeError, .osError, .unboundLocalError].find? (fun e => showExc e == s)
+
 def showRes : Res → String
   | .msg b => "M" ++ Hex.showBytes b
   | .fin => "None"
